@@ -1688,6 +1688,9 @@ class ScenarioOutline(Scenario):
                     # -- FAIL-EARLY: Stop after first failure.
                     break
         runner.context._set_root_attribute("active_outline", None)
+        # -- ENSURE: Status is computed from the scenarios after they have run
+        #    (a hook may have asked for the status while they were running).
+        self.clear_status()
         return failed_count > 0
 
 
